@@ -8,12 +8,14 @@ package main
 
 import (
 	"fmt"
+	"sort"
 	"strings"
 	"time"
 
 	"github.com/hashicorp/hcl/v2"
 	"github.com/hashicorp/hcl/v2/hclsyntax"
 	"github.com/zclconf/go-cty/cty"
+	"github.com/zclconf/go-cty/cty/function"
 
 	"verif/engine"
 	ex "verif/gen/expr"
@@ -44,6 +46,28 @@ func gen(tier string, emit func(engine.Case) bool) {
 }
 
 var ctx = &hcl.EvalContext{Variables: pool.Vars, Functions: pool.ImplFuncs()}
+
+// chainCtx offers the same scope through a chain of contexts: the root holds the functions and
+// every second variable, its child the other variables and an empty (non-nil) function table, the
+// leaf nothing at all. spec: names not found in a context are looked up in its parent.
+var chainCtx = func() *hcl.EvalContext {
+	root := &hcl.EvalContext{Variables: map[string]cty.Value{}, Functions: pool.ImplFuncs()}
+	mid := root.NewChild()
+	mid.Variables, mid.Functions = map[string]cty.Value{}, map[string]function.Function{}
+	var names []string
+	for n := range pool.Vars {
+		names = append(names, n)
+	}
+	sort.Strings(names)
+	for i, n := range names {
+		if i%2 == 0 {
+			root.Variables[n] = pool.Vars[n]
+		} else {
+			mid.Variables[n] = pool.Vars[n]
+		}
+	}
+	return mid.NewChild()
+}()
 var scope = pool.RefScope()
 
 func slug(s string) string {
@@ -109,6 +133,7 @@ func tupleize(v cty.Value) cty.Value {
 
 type obs struct {
 	reeval string
+	chain  string
 	src    string
 	perr   bool
 	err    bool
@@ -141,6 +166,11 @@ func evalSrc(src string, bare bool) (o obs) {
 	v2, vd2 := expr.Value(ctx)
 	if vd2.HasErrors() != o.err || (!o.err && !v2.RawEquals(v)) {
 		o.reeval = fmt.Sprintf("first evaluation: err=%v %s; second evaluation of the same parsed expression: err=%v %s %s", o.err, vfmt.V(v), vd2.HasErrors(), vfmt.V(v2), vd2.Error())
+	}
+	// the same scope offered through a chain of contexts gives the same outcome
+	v3, vd3 := expr.Value(chainCtx)
+	if vd3.HasErrors() != o.err || (!o.err && !v3.RawEquals(v)) {
+		o.chain = fmt.Sprintf("flat scope: err=%v %s; scope split over a chain of three contexts: err=%v %s %s", o.err, vfmt.V(v), vd3.HasErrors(), vfmt.V(v3), vd3.Error())
 	}
 	return
 }
@@ -250,6 +280,10 @@ func judgeExpr(d Data, e *ex.E) engine.Outcome {
 		}
 		if o.reeval != "" {
 			out := engine.Fail("c01."+kind+".re-evaluation-differs", "evaluating the same parsed expression twice gives different outcomes:\n  source: %q\n  %s", o.src, o.reeval)
+			return &out
+		}
+		if o.chain != "" {
+			out := engine.Fail("c01."+kind+".scope-chain-differs", "evaluating in a chain of contexts differs from evaluating in one context holding the same names:\n  source: %q\n  %s", o.src, o.chain)
 			return &out
 		}
 		if first == nil {
